@@ -1,0 +1,37 @@
+// Licensed to Apache Software Foundation (ASF) under one or more contributor
+// license agreements. See the NOTICE file distributed with
+// this work for additional information regarding copyright
+// ownership. Apache Software Foundation (ASF) licenses this file to you under
+// the Apache License, Version 2.0 (the "License"); you may
+// not use this file except in compliance with the License.
+// You may obtain a copy of the License at
+//
+//     http://www.apache.org/licenses/LICENSE-2.0
+//
+// Unless required by applicable law or agreed to in writing,
+// software distributed under the License is distributed on an
+// "AS IS" BASIS, WITHOUT WARRANTIES OR CONDITIONS OF ANY
+// KIND, either express or implied.  See the License for the
+// specific language governing permissions and limitations
+// under the License.
+
+//go:build verif
+
+package encoding
+
+// Round-trip compositions of the real encoder and decoder, compiled only with -tags verif. The verification harness
+// (/verif/govc) inlines both bodies and proves the stated postcondition for every 64-bit input; nothing here is called
+// by production code.
+
+func verifVarInt64RoundTrip(v int64) (int64, int, error) {
+	b := VarInt64ToBytes(nil, v)
+	tail, r, err := BytesToVarInt64(b)
+	return r, len(tail), err
+}
+
+func verifVarUint64RoundTrip(u uint64) (uint64, int, error) {
+	var tmp [1]uint64
+	b := VarUint64ToBytes(nil, u)
+	tail, err := BytesToVarUint64s(tmp[:], b)
+	return tmp[0], len(tail), err
+}
